@@ -100,6 +100,8 @@ class MiniEval:
             raise AnalysisError(f"minieval: unknown name `{e.id}`")
         if isinstance(e, ast.Tuple):
             return tuple(self._ev(x, env) for x in e.elts)
+        if isinstance(e, ast.IfExp):
+            return self._ev(e.body, env) if self._truth(self._ev(e.test, env)) else self._ev(e.orelse, env)
         if isinstance(e, ast.BinOp):
             a, b = self._ev(e.left, env), self._ev(e.right, env)
             ops = {ast.Add: lambda: a + b, ast.Sub: lambda: a - b, ast.Mult: lambda: a * b, ast.FloorDiv: lambda: a // b, ast.Mod: lambda: a % b}
@@ -135,8 +137,8 @@ class MiniEval:
             return True
         if isinstance(e, ast.Call):
             d = dotted(e.func)
-            if d in ("ord", "chr", "int", "len", "str", "abs") and len(e.args) == 1 and not e.keywords:
-                return {"ord": ord, "chr": chr, "int": int, "len": len, "str": str, "abs": abs}[d](self._ev(e.args[0], env))
+            if d in ("ord", "chr", "int", "len", "str", "abs", "bool") and len(e.args) == 1 and not e.keywords:
+                return {"ord": ord, "chr": chr, "int": int, "len": len, "str": str, "abs": abs, "bool": bool}[d](self._ev(e.args[0], env))
             if d == "isinstance" and len(e.args) == 2:
                 v = self._ev(e.args[0], env)
                 names = [norm(x) for x in (e.args[1].elts if isinstance(e.args[1], ast.Tuple) else [e.args[1]])]
